@@ -24,7 +24,7 @@ L1_KINDS = ["ok", "short0", "short1", "short206", "okclbad", "ok200", "reset", "
 OPS = ["ping", "repo-list", "tag-list", "tag-list-paged", "manifest-get", "manifest-get-digest", "manifest-head",
        "manifest-put", "manifest-put-subject", "manifest-put-subject-fb", "manifest-delete",
        "manifest-delete-ref-fb", "tag-delete", "tag-delete-fb", "blob-get", "blob-head", "blob-delete",
-       "blob-mount", "blob-put", "blob-put-chunked", "blob-put-stream", "referrer-list", "referrer-list-paged",
+       "blob-mount", "blob-put", "blob-put-chunked", "blob-put-stream", "blob-put-oneshot", "referrer-list", "referrer-list-paged",
        "referrer-list-fb"]
 READ_OPS = {"tag-list", "tag-list-paged", "manifest-get", "manifest-get-digest", "manifest-head", "blob-get",
             "blob-head", "referrer-list", "referrer-list-paged", "referrer-list-fb"}
@@ -120,6 +120,20 @@ def l1_order_scenarios():
     out.append({"id": "ra-window-order", "conf": conf(["m1", "up"], [0, 0]),
                 "steps": [{"ev": "do", "id": "B"}, {"ev": "att", "raw": "s429ra"}, {"ev": "note", "what": "close", "id": "B"},
                           {"ev": "do", "id": "C"}, {"ev": "read", "id": "C"}, {"ev": "note", "what": "close", "id": "C"}]})
+    # uploads whose body can be sent only once fail on their retry (ErrNotRetryable); as many of them as the
+    # host has throttle slots, then an ordinary request to the same host (seeded change C17-4)
+    for conc in (1, 2, 3):
+        for fault in ("s500", "reset", "s429"):
+            rq = {"G": {"meth": "GET", "nomir": False, "ie": False, "expect": False, "oneshot": False}}
+            steps = []
+            for i in range(conc):
+                pid = "P%d" % i
+                rq[pid] = {"meth": "PUT", "nomir": True, "ie": False, "expect": False, "oneshot": True}
+                steps += [{"ev": "do", "id": pid}, {"ev": "att", "raw": fault}, {"ev": "note", "what": "close", "id": pid}]
+            steps += [{"ev": "do", "id": "G"}, {"ev": "read", "id": "G"}, {"ev": "note", "what": "close", "id": "G"}]
+            out.append({"id": "oneshot-c%d-%s" % (conc, fault),
+                        "conf": {"R": 3, "dmax": 4, "up": "up", "hosts": ["up"], "prio": [0], "n": 2, "conc": conc, "req": rq},
+                        "steps": steps})
     for s in out:
         s["blocked"] = 0
     return out
@@ -165,6 +179,14 @@ def run_l1(ctx, rng, cov):
     if len(scns) < 100 or len(reenter) < 6:
         raise vlib.ToolError("generator produced %d scenarios, %d with two re-entries" % (len(scns), len(reenter)))
     scns += rng.sample(reenter, min(len(reenter), 60 if thorough else 10))
+    # throttle, second part: uploads with a one-shot body (not-retryable abort of next()) mixed with other requests
+    nr = ctx.tlc_scenarios("RegHttpGen", "C12_gen_nr.cfg", workers=1, simulate="num=%d" % (1500 if thorough else 150),
+                           depth=90, extra=["-seed", str(ctx.seed)], label="generator C12_gen_nr.cfg", timeout=1500)
+    aborted = [s for s in nr["scenarios"] if any(e["ev"] == "ret" and e["call"] == "do" and e["ok"] == 0 and
+                                                 s["conf"]["req"][e["id"]].get("oneshot") for e in s["steps"])]
+    if len(aborted) < 20:
+        raise vlib.ToolError("generator C12_gen_nr produced %d behaviours with a not-retryable abort" % len(aborted))
+    scns += aborted
     for i, s in enumerate(scns):
         s["id"] = "tlc-%d" % i
     ntlc = len(scns)
@@ -265,6 +287,11 @@ def l2_fixed(base, info):
         if b:
             out.append(dict(b, faults=[{"pos": 2, "kind": "500"}]))
             out.append(dict(b, faults=[{"pos": 2, "kind": "429ra"}]))
+    b = find("blob-put-oneshot", 3, 0)                                      # seeded change C17-4
+    if b:
+        for conc in (1, 2, 3):
+            for kind in ("500", "reset"):
+                out.append(dict(b, R=5, conc=conc, persist={"class": "upload_put", "kind": kind, "from": 1}))
     b = find("referrer-list", 3, 0)                                         # referrers probe
     if b:
         out.append(dict(b, faults=[{"pos": 1, "kind": "502"}]))
@@ -370,6 +397,10 @@ def model_check(ctx, cov):
             ("RegHttpMC", "C12_mc_leak.cfg", "2 throttle slots, as the code (slot returned before re-entry): never stuck", None),
             ("RegHttpMC", "C12_mc_leak_old.cfg", "switch FixLeak=FALSE, the code before eb4e31c (expected: stuck in Acquire; "
              "explains seeded/fixrev-C12-4)", "NoThrottleBlock"),
+            ("RegHttpMC", "C12_mc_nr.cfg", "one-shot bodies (not-retryable abort of next()), 2 requests, 2 slots: every "
+             "exit returns its slot", None),
+            ("RegHttpMC", "C12_mc_nr_old.cfg", "switch RelNR=FALSE, the seeded change C17-4 (expected: slot not returned)",
+             "SlotsAccounted"),
             ("RegHttpUpload", "C12_up_code.cfg", "chunk loop as the code (no-progress guard): terminates, no endless repeat", None),
             ("RegHttpUpload", "C12_up_old.cfg", "switch Guard=FALSE, the code before 94ee6b0 (expected: endless repeat; "
              "explains seeded/fixrev-C12-2)", "NoEndlessRepeat")]
